@@ -1,8 +1,12 @@
 /-
   C12, text level — the savefile text stage (RtoscModel/Save/Text.lean) is transparent:
-  * `LineTextOK` / `ValTextOK`: the lines and values for which C10's token theorems apply;
-  * `lineText_msgText`: the printed line is a message text (`MsgText`) whose cells convert back to
-    the line's arguments;
+  * `LineTextOK` / `ValTextOK`: the lines and values for which C10's token theorems apply; an array
+    line may contain compressed runs (`ArrCutOK`: the printer's decisions on its elements are plain
+    values, constant runs `nxT` and int32 arithmetic runs `a ... z`; Proofs/SaveTextCut.lean);
+  * `lineText_msgText`: the printed line is read back by the checker and the scanner wherever it
+    stands in a file (`ScansAs`, Proofs/SaveTextRunsMsg.lean), and the scanned cells — repetition and
+    range blocks expanded by the dispatch loop's iterator (Proofs/SaveTextExpand.lean) — convert
+    back to the line's arguments;
   * `scanBodyText_lines`: the message loop of `dispatch_printed_messages` reads the lines back;
   * `parseHeader_fileTextOf`: the two header lines are read back;
   * `loadText_saveText`: `load_from_file` on the text of `save_to_file` is `App.loadFile` on the
@@ -10,6 +14,9 @@
 -/
 import RtoscModel.Save.Text
 import RtoscModel.Proofs.SaveTextMsg
+import RtoscModel.Proofs.SaveTextRunsMsg
+import RtoscModel.Proofs.SaveTextExpand
+import RtoscModel.Proofs.SaveTextCut
 import RtoscModel.Proofs.PrettyTokHuge
 import RtoscModel.Proofs.PrettyTokWord
 import RtoscModel.Proofs.PrettyTokChar
@@ -46,19 +53,31 @@ def ValTextOK : Val → Prop
 def AddrTextOK (a : Path) : Prop :=
   a.head? = some '/' ∧ (∀ c ∈ a, CharByte c ∧ isspace (byteOfChar c) = false) ∧ a.length + 2 ≤ nameBufSize
 
+/-- **the printer cuts the elements `vs` of an array line into the segments `body`**: plain values,
+    constant runs of five or more equal values (printed `nxT`) and int32 arithmetic runs of five or
+    more values (printed `a ... z` or `a b ... z`), in any number and order; `CutOK`: at the start of
+    every segment `rtosc_convert_to_range`, called on the elements left in the array, gives exactly
+    that segment (and an arithmetic run satisfies C10's overflow guards `RunHyp`).
+    Proofs/SaveTextCut.lean has the decision procedure `cutOf` (`cutOf_sound`) and criteria on the
+    values (`SegStep.tok_of_short`, `SegStep.crun_of_next`, `SegStep.irun_of_next`,
+    `cutOK_of_noLongRun`). -/
+def ArrCutOK (vs : List Val) (body : List RSeg) : Prop :=
+  cellsAll body = vs.map cellOfVal ∧ CutOK body
+
 /-- **the savefile lines covered**: a scalar port's line `addr value`; an array port's line
-    `addr [v0 v1 …]` with at least one element, all of one type (true/false count as one), in which
-    no five consecutive elements have the same type tag — `rtosc_print_arg_vals` compresses runs of
-    five or more equal or equidistant values (`[5x7]`, `[1 ... 6]`), and C10's theorems do not reach
-    runs inside arrays: int/char/float/option/string arrays are covered up to four printed elements,
-    toggle arrays of any length as long as no five consecutive elements are equal. -/
+    `addr [v0 v1 …]` with at least one element, all covered values of one type (true/false count as
+    one), of any length, whose elements the printer cuts into plain values, constant runs and int32
+    arithmetic runs (`ArrCutOK`) — `rtosc_print_arg_vals` compresses five or more equal or
+    equidistant values (`[5x7]`, `[1 ... 6]`).  Not covered: the other answers of
+    `rtosc_convert_to_range` — an arithmetic run of chars (`['a' ... 'f']`) — and nested arrays
+    (no savefile has them). -/
 def LineTextOK (l : Line) : Prop :=
   AddrTextOK l.addr ∧
   match l.args with
   | .plain vs => ∃ v, vs = [v] ∧ ValTextOK v
   | .arr vs => vs ≠ [] ∧ (∀ v ∈ vs, ValTextOK v) ∧
       (∀ v ∈ vs, typesMatch ((vs.map cellOfVal).headD (Cell.flag .N)).type (cellOfVal v).type = true) ∧
-      NoLongRun (vs.map cellOfVal)
+      ∃ body, ArrCutOK vs body
 
 /-- the application name in the second header line: what `%127s` reads back -/
 def NameTextOK (n : Path) : Prop :=
@@ -242,10 +261,11 @@ theorem argsOfCells_arr (vs : List Val) (h : ∀ v ∈ vs, ValTextOK v) (ety : U
 
 /-! ### one line -/
 
-/-- what the load side needs to know about a line and its text -/
+/-- what the load side needs to know about a line and its text: wherever the text stands in a file,
+    checker and scanner read it as the address and some cells (`ScansAs`), and these cells are the
+    line's arguments (after the expansion of repetitions and ranges) -/
 structure LineScans (l : Line) (t : Bytes) : Prop where
-  msg : MsgText (pathBytes l.addr) (groupsOf l.args) t
-  back : argsOfCells (groupsOf l.args).flatten = .ok l.args
+  scans : ∃ cells, ScansAs (pathBytes l.addr) cells t ∧ argsOfCells cells = .ok l.args
   addr_back : bytesPath (pathBytes l.addr) = l.addr
   addr_len : (pathBytes l.addr).length + 2 ≤ nameBufSize
 
@@ -279,7 +299,7 @@ theorem lineText_msgText (l : Line) (h : LineTextOK l) : ∃ t, lineText l = .ok
       ∃ t, lineText ⟨addr, args⟩ = .ok t ∧ LineScans ⟨addr, args⟩ t := by
     intro hne hP hconv hb
     obtain ⟨st, ret, hpr, hmsg⟩ := printMessage_msgText defaultOpt (pathBytes addr) (groupsOf args) hA hne hP hconv
-    refine ⟨st.out, ?_, ⟨hmsg, hb, hback, hlen⟩⟩
+    refine ⟨st.out, ?_, ⟨⟨_, hmsg.scansAs, hb⟩, hback, hlen⟩⟩
     unfold lineText
     rw [groupsOf_flatten] at hpr
     simp only [hpr, bind, Except.bind, pure, Except.pure]
@@ -296,34 +316,55 @@ theorem lineText_msgText (l : Line) (h : LineTextOK l) : ∃ t, lineText l = .ok
     · rw [groupsOf_flatten]
       exact argsOfCells_plain [v] (by intro x hx; simp only [List.mem_singleton] at hx; subst hx; exact hv) (by simp)
   | arr vs =>
-    obtain ⟨hne, hv, hty, hrun⟩ := hargs
-    apply key
-    · simp [groupsOf]
-    · intro cs hcs
-      simp only [groupsOf, List.mem_singleton] at hcs
-      subst hcs
-      have hg : GoodArg defaultOpt (Cell.arr (lastTy (vs.map cellOfVal) 32) ((vs.map cellOfVal).length : Nat) :: vs.map cellOfVal) := by
-        refine GoodArg.array _ ?_ ?_ (Or.inr hrun)
-        · intro e he
-          simp only [List.mem_map] at he
-          obtain ⟨v, hvm, rfl⟩ := he
-          exact ⟨cellOfVal_scalar v, printsTok_cellOfVal v (hv v hvm)⟩
-        · intro e he
-          simp only [List.mem_map] at he
-          obtain ⟨v, hvm, rfl⟩ := he
-          exact hty v hvm
-      rw [arrTy_eq_lastTy]
-      simpa using hg.prints
-    · intro done cs rem heq
-      have : done = [] ∧ cs = Cell.arr (arrTy (vs.map cellOfVal)) (vs.length : Nat) :: vs.map cellOfVal ∧ rem = [] := by
-        cases done with
-        | nil => simp [groupsOf] at heq; exact ⟨rfl, heq.1.symm, heq.2⟩
-        | cons d ds => simp [groupsOf] at heq
-      obtain ⟨_, rfl, rfl⟩ := this
-      have := convertToRange_arrayHead defaultOpt (arrTy (vs.map cellOfVal)) (vs.map cellOfVal)
-      simpa using this
-    · rw [groupsOf_flatten]
-      exact argsOfCells_arr vs hv _
+    obtain ⟨hne, hv, hty, body, hcells, hcut⟩ := hargs
+    have hseg : Segmented defaultOpt body := hcut.segmented (by
+      intro c hc
+      rw [hcells] at hc
+      simp only [List.mem_map] at hc
+      obtain ⟨v, hvm, rfl⟩ := hc
+      exact ⟨cellOfVal_scalar v, printsTok_cellOfVal v (hv v hvm)⟩)
+    have htyB : ArrTypesOK body := by
+      intro e he
+      rw [hcells] at he ⊢
+      simp only [List.mem_map] at he
+      obtain ⟨v, hvm, rfl⟩ := he
+      exact hty v hvm
+    have hhdr : cellsOfArgs (.arr vs) = arrHdr body :: cellsAll body := by
+      simp only [cellsOfArgs, arrHdr, lastTyS_eq_lastTy hseg 32, hcells, arrTy_eq_lastTy, List.length_map]
+    obtain ⟨st, ret, sep, B, hpr, hout, hsep, hB⟩ := printMessage_arrSegs defaultOpt rfl (pathBytes addr) hA hseg htyB
+    refine ⟨st.out, ?_, ⟨⟨arrHdrS body :: scannedAll none body, ?_, ?_⟩, hback, hlen⟩⟩
+    · unfold lineText
+      simp only [hhdr, hpr, bind, Except.bind, pure, Except.pure]
+    · rw [hout]
+      exact arrSegs_scansAs hA hsep hB htyB
+    · have hexp := expandCells_scannedAll hseg
+      simp only [argsOfCells, arrHdrS, ↓reduceIte, hexp, bind, Except.bind, hcells, mapM_valOfCell vs hv, pure,
+        Except.pure]
+
+/-- **the old clause is an instance**: an array line without five same-typed neighbours (what
+    `LineTextOK` demanded before runs inside arrays were proved) is cut into plain values -/
+theorem arrCutOK_of_noLongRun (vs : List Val) (h : NoLongRun (vs.map cellOfVal)) :
+    ArrCutOK vs ((vs.map cellOfVal).map RSeg.tok) :=
+  cutOK_of_noLongRun (vs.map cellOfVal) (by
+    intro c hc
+    simp only [List.mem_map] at hc
+    obtain ⟨v, _, rfl⟩ := hc
+    exact cellOfVal_scalar v) h
+
+/-- the decision procedure: `cutOf` (the model of `rtosc_convert_to_range` run on the elements,
+    every answer checked) returns segments -/
+theorem arrCutOK_of_cutOf (vs : List Val) (body : List RSeg)
+    (h : cutOf (vs.length + 1) (vs.map cellOfVal) = some body) : ArrCutOK vs body :=
+  cutOf_sound _ _ _ h
+
+/-- the decidable form: the printer's decisions on the elements are all of the covered kinds -/
+def arrCutB (vs : List Val) : Bool := (cutOf (vs.length + 1) (vs.map cellOfVal)).isSome
+
+theorem arrCutOK_of_arrCutB (vs : List Val) (h : arrCutB vs = true) : ∃ body, ArrCutOK vs body := by
+  unfold arrCutB at h
+  cases hc : cutOf (vs.length + 1) (vs.map cellOfVal) with
+  | none => rw [hc] at h; cases h
+  | some body => exact ⟨body, arrCutOK_of_cutOf vs body hc⟩
 
 /-! ### the message loop -/
 
@@ -348,8 +389,8 @@ theorem scanBodyText_lines : ∀ (ls : List Line) (ts : List Bytes), List.Forall
   | nil => intro hne; exact absurd rfl hne
   | @cons l t ls' ts' hlt hrest ih =>
     intro _ lead hlead hl1 fuel hf
-    have hmsg := hlt.msg
-    have ht47 := hmsg.hd_eq
+    obtain ⟨cells, hmsg, hcback⟩ := hlt.scans
+    have ht47 := hmsg.1
     have htne : t ≠ [] := by intro e; rw [e] at ht47; simp at ht47
     have htpos : 0 < t.length := List.length_pos_iff.mpr htne
     have hal : lead.length + (pathBytes l.addr).length < nameBufSize := by
@@ -364,7 +405,8 @@ theorem scanBodyText_lines : ∀ (ls : List Line) (ts : List Bytes), List.Forall
         | nil => exact ⟨[], by simp [joinLines], Or.inl rfl, fun _ => rfl, fun r hr => by cases hr⟩
         | @cons l2 t2 ls2 ts2 hlt2 hrest2 =>
           obtain ⟨x, hx⟩ := joinLines_head t2 ts2
-          have h47 := hlt2.msg.hd_eq
+          obtain ⟨_, hmsg2, _⟩ := hlt2.scans
+          have h47 := hmsg2.1
           have ht2ne : t2 ≠ [] := by intro e; rw [e] at h47; simp at h47
           obtain ⟨c, r, hcr⟩ := List.exists_cons_of_ne_nil ht2ne
           rw [hcr, hd_cons] at h47
@@ -373,15 +415,15 @@ theorem scanBodyText_lines : ∀ (ls : List Line) (ts : List Bytes), List.Forall
           · simp only [List.cons.injEq, true_and] at hr'
             exact ⟨hr'.symm, by simp⟩
       obtain ⟨tl, hjoin, htl, htlnil, htlcons⟩ := htail
-      obtain ⟨hcount, hscan⟩ := hmsg.scans lead hlead htl nameBufSize hal
+      obtain ⟨hcount, hscan⟩ := hmsg.2 lead hlead tl htl nameBufSize hal
       rw [hjoin]
       have hnonempty : (lead ++ (t ++ tl)).isEmpty = false := by
         cases lead <;> cases t <;> simp_all
-      have hnn : (0 : Int) ≤ ((groupsOf l.args).flatten.length : Int) := by omega
+      have hnn : (0 : Int) ≤ (cells.length : Int) := by omega
       have hrd : lead.length + t.length + wsLen tl ≠ 0 := by omega
       unfold scanBodyText
       simp only [hnonempty, Bool.false_eq_true, ↓reduceIte, hcount, bind, Except.bind, hnn, Int.toNat_natCast, hscan,
-        hrd, hlt.back, hlt.addr_back]
+        hrd, hcback, hlt.addr_back]
       -- the rest of the text
       have hdrop : (lead ++ (t ++ tl)).drop (lead.length + t.length + wsLen tl) = tl.drop (wsLen tl) := by
         rw [show lead ++ (t ++ tl) = (lead ++ t) ++ tl from by simp,
